@@ -5,7 +5,7 @@
 (*                                                                         *)
 (*   lena/math/elements.py     Sum DSum Mean VarianceMeanCount Vectorize   *)
 (*   lena/flow/elements.py     Count StoreFilled                           *)
-(*   lena/flow/group_by.py     GroupBy                                     *)
+(*   lena/flow/group_by.py     GroupBy (over its arguments group_by/merge) *)
 (*   lena/structures/histogram.py  Histogram                               *)
 (*   lena/structures/graph.py      Graph  (reset only, see below)          *)
 (*                                                                         *)
@@ -52,6 +52,9 @@ E == <<>>
 CA == [a |-> 1]
 CB == [a |-> 2, count |-> 9]
 CN == [a |-> 1, n |-> [b |-> 1]]
+CN2 == [a |-> 1, n |-> [b |-> 2]]
+CM == [a |-> 2, n |-> [b |-> 1]]
+CND == [a |-> 1, n |-> [b |-> 1, d |-> 3]]
 CS == [scale |-> 2]
 CS3 == [scale |-> 3, a |-> 1]
 Put(c, k, v) == [x \in (DOMAIN c) \cup {k} |-> IF x = k THEN v ELSE c[x]]
@@ -111,11 +114,94 @@ InsertPt(s, p) == IF s = <<>> THEN <<p>>
 RECURSIVE SortPts(_)
 SortPts(s) == IF s = <<>> THEN <<>> ELSE InsertPt(SortPts(SubSeq(s, 1, Len(s) - 1)), s[Len(s)])
 
-\* the group key: GroupBy() one group; GroupBy("a") the value of context.a; GroupBy(("a", "count")) the selected
-\* part of the context - equal dictionaries are one group whatever the order their keys were inserted in
-GKey(k, v) == CASE k.by = "all" -> 0
-                [] k.by = "ac" -> [x \in (DOMAIN v.c) \cap {"a", "count"} |-> v.c[x]]
-                [] OTHER -> v.c.a
+(***************************************************************************)
+(* GroupBy(group_by, merge): the configuration space of the element.       *)
+(*                                                                         *)
+(* A key of the context is a path, the sequence of its dot-separated       *)
+(* parts: "a" is <<"a">>, "n.b" is <<"n", "b">>, the empty string (the     *)
+(* entire context) is Root = <<>>.  A kind holds the two arguments as they *)
+(* are given: gb / mg the sequences of paths, gsp / msp how each is spelt  *)
+(* ("omit": not passed, "str": one bare string, "tuple": a tuple of        *)
+(* strings).  by = "all" / "a" / "ac" are the short names of GroupBy(),    *)
+(* GroupBy("a"), GroupBy(("a", "count")); by = "cfg" carries gb, gsp, mg,  *)
+(* msp itself.                                                             *)
+(*                                                                         *)
+(* Documentation (lena/flow/group_by.py): "group_by defines distinct       *)
+(* hashable results for values from different groups ... Only the context  *)
+(* part of the value is used ... can be a tuple of strings ... An empty    *)
+(* string represents the entire context.  The default arguments add all    *)
+(* values from the flow into one group (that is merge takes priority over  *)
+(* group_by) ... merge allows ignoring keys."  Declarative reading (DKey): *)
+(* the key of a value is the set of the leaves (path, number) of its       *)
+(* context that are selected; a leaf is selected when the most specific    *)
+(* (longest) path among group_by and merge that is a prefix of its path    *)
+(* belongs to group_by.  Operational reading (OKey, written like           *)
+(* lena/context/include_exclude_tree.py): an include / exclude tree built  *)
+(* from the two arguments level by level, and the part of the context it   *)
+(* gets.  TLC checks that both readings form the same groups.              *)
+(***************************************************************************)
+Root == <<>>
+DictKeys == {"n"}          \* the keys that hold sub-dictionaries in the contexts of the model (CN ..)
+Rng(s) == {s[j] : j \in 1..Len(s)}
+PA == <<"a">>
+PC == <<"count">>
+PN == <<"n">>
+PNB == <<"n", "b">>
+Gb(k) == CASE k.by = "all" -> <<Root>> [] k.by = "a" -> <<PA>> [] k.by = "ac" -> <<PA, PC>> [] OTHER -> k.gb
+Gsp(k) == CASE k.by = "all" -> "omit" [] k.by = "a" -> "str" [] k.by = "ac" -> "tuple" [] OTHER -> k.gsp
+Mg(k) == IF k.by = "cfg" THEN k.mg ELSE <<Root>>
+Msp(k) == IF k.by = "cfg" THEN k.msp ELSE "omit"
+\* "the default arguments": both are the empty string (passed or not); an empty tuple is not the default
+DefaultArgs(k) == /\ Gb(k) = <<Root>> /\ Gsp(k) \in {"omit", "str"}
+                  /\ Mg(k) = <<Root>> /\ Msp(k) \in {"omit", "str"}
+\* ... "add all values into one group (merge takes priority)": nothing is selected, the entire context is merged
+GInc(k) == IF DefaultArgs(k) THEN {} ELSE Rng(Gb(k))
+GExc(k) == IF DefaultArgs(k) THEN {Root} ELSE Rng(Mg(k))
+
+\* ---- declarative key
+RECURSIVE Leaves(_, _)
+Leaves(c, pre) == UNION {IF x \in DictKeys THEN Leaves(c[x], Append(pre, x)) ELSE {<<Append(pre, x), c[x]>>} : x \in DOMAIN c}
+IsPrefix(p, q) == Len(p) <= Len(q) /\ SubSeq(q, 1, Len(p)) = p
+Governing(k, p) == LET rules == {r \in GInc(k) \cup GExc(k) : IsPrefix(r, p)} IN
+                   CHOOSE r \in rules : \A q \in rules : Len(q) <= Len(r)
+DKey(k, v) == {l \in Leaves(v.c, <<>>) : Governing(k, l[1]) \in GInc(k)}
+
+\* ---- operational key: _make_include_exclude_tree and IncludeExcludeTree.get
+Heads(S) == {p[1] : p \in S}
+TailsOf(S, key) == {Tail(p) : p \in {q \in S : q[1] = key}}
+RECURSIVE MakeTree(_, _, _)
+MakeTree(incs, excs, definc) ==        \* incs, excs: sets of non-empty paths
+  LET subkeys == IF definc THEN excs ELSE incs       \* the next nested level are excludes, and then again includes
+      subsubs == IF definc THEN incs ELSE excs
+      proper == {key \in Heads(subkeys) : TailsOf(subkeys, key) = {<<>>} /\ key \notin Heads(subsubs)}
+  IN [extra |-> Heads(subsubs) \ Heads(subkeys),       \* "Remove extra subkeys": LenaValueError
+      keys |-> proper, include |-> definc,
+      sub |-> [key \in Heads(subkeys) \ proper |->
+                 MakeTree(TailsOf(incs, key) \ {<<>>}, TailsOf(excs, key) \ {<<>>},
+                          \* the key itself is given: the default changes below it
+                          IF <<>> \in TailsOf(subkeys, key) THEN ~definc ELSE definc)]]
+Tree(k) == MakeTree(GInc(k) \ {Root}, GExc(k) \ {Root}, Root \in GInc(k))
+RECURSIVE TreeOk(_)
+TreeOk(t) == t.extra = {} /\ \A key \in DOMAIN t.sub : TreeOk(t.sub[key])
+\* the configurations that GroupBy accepts: the root in exactly one of the two arguments, properly nested keys
+ValidCfg(k) == /\ (Root \in GInc(k)) # (Root \in GExc(k))
+               /\ GInc(k) \cap GExc(k) = {}
+               /\ TreeOk(Tree(k))
+RECURSIVE Get(_, _)
+Get(t, c) ==
+  LET viaSub(x) == x \in DOMAIN t.sub
+      \* a key that is not selected itself is kept only as a path to selected subkeys
+      keepSub(x) == IF x \in DictKeys THEN t.sub[x].include \/ DOMAIN Get(t.sub[x], c[x]) # {}
+                    ELSE t.sub[x].include
+      kept == {x \in DOMAIN c : IF t.include THEN x \notin t.keys /\ (viaSub(x) => keepSub(x))
+                                ELSE x \in t.keys \/ (viaSub(x) /\ keepSub(x))}
+  IN [x \in kept |-> IF viaSub(x) /\ x \in DictKeys THEN Get(t.sub[x], c[x]) ELSE c[x]]
+OKey(k, v) == Get(Tree(k), v.c)
+\* a path leads to a number or a sub-dictionary of the context
+RECURSIVE Resolves(_, _)
+Resolves(c, p) == \/ p = Root
+                  \/ /\ p[1] \in DOMAIN c
+                     /\ Len(p) = 1 \/ (p[1] \in DictKeys /\ Resolves(c[p[1]], Tail(p)))
 
 (***************************************************************************)
 (* Value domains of the bounded model.                                     *)
@@ -142,7 +228,16 @@ HistVals == {P(0), V(1, CA), P(-1), V(3, CB)}
 HistValsMore == HistVals \cup {P(2), V(2, E)}
 Hist2Vals == {P(<<0, 0>>), V(<<2, 3>>, CA), P(<<1, 4>>), V(<<-1, 1>>, CB)}
 GraphVals == {P(<<1, 5>>), P(<<0, 7>>), V(<<2, 1>>, CS), V(<<0, 0>>, CS3)}
-HasA(S) == {v \in S : "a" \in DOMAIN v.c}
+\* GroupBy by / ignoring keys of the sub-dictionary n: contexts that differ in a, in n.b, in a further key of n
+\* (the data are labels of the "odd" objects as well)
+NestVals == {V(3, CN), V(1, CN2), V(-1, CM), V(2, CND)}
+NestValsMore == NestVals \cup {V(0, [n |-> [b |-> 2]]), V(-2, [a |-> 2, n |-> [d |-> 3]])}
+Nested(k) == \E p \in (Rng(Gb(k)) \cup Rng(Mg(k))) \ {Root} : p[1] \in DictKeys
+\* a GroupBy that selects given keys only is filled with values whose context has at least one of them
+GroupVals(k) ==
+  LET base == IF Nested(k) THEN (IF Wide THEN NestValsMore ELSE NestVals)
+              ELSE (IF Wide THEN NumValsMore ELSE NumVals) IN
+  IF Root \in GInc(k) \/ GInc(k) = {} THEN base ELSE {v \in base : \E p \in GInc(k) : Resolves(v.c, p)}
 ValsOf(k) ==
   CASE k.t = "DSum" -> IF Wide THEN DValsMore ELSE DVals
     [] k.t = "Mean" -> IF k.inner = "DSum" THEN (IF Wide THEN DValsMore ELSE DVals)
@@ -151,8 +246,7 @@ ValsOf(k) ==
     [] k.t = "Hist" -> IF Wide THEN HistValsMore ELSE HistVals
     [] k.t = "Hist2" -> Hist2Vals
     [] k.t = "Graph" -> GraphVals
-    [] k.t = "GroupBy" -> IF k.by \in {"a", "ac"} THEN HasA(IF Wide THEN NumValsMore ELSE NumVals)
-                          ELSE (IF Wide THEN NumValsMore ELSE NumVals)
+    [] k.t = "GroupBy" -> GroupVals(k)
     [] OTHER -> IF Wide THEN NumValsMore ELSE NumVals
 
 \* opt: a variant that only the binding distinguishes (the model is the same):
@@ -193,6 +287,33 @@ StoreO(grp, opt) == [t |-> "Store", grp |-> grp, opt |-> opt]
 Store(grp) == StoreO(grp, "")
 GroupByO(by, opt) == [t |-> "GroupBy", by |-> by, opt |-> opt]
 GroupByK(by) == GroupByO(by, "")
+\* GroupBy(group_by, merge) with the arguments as given (paths, spelling), see above
+GroupByC(gb, gsp, mg, msp, opt) == [t |-> "GroupBy", by |-> "cfg", gb |-> gb, gsp |-> gsp, mg |-> mg, msp |-> msp, opt |-> opt]
+GroupByCfgs ==
+  {GroupByC(<<Root>>, "str", <<>>, "tuple", ""),              \* GroupBy("", merge=()): by the entire context
+   GroupByC(<<Root>>, "str", <<Root>>, "str", ""),            \* GroupBy("", ""): the default arguments, passed
+   GroupByC(<<>>, "tuple", <<Root>>, "tuple", ""),            \* GroupBy((), ("",)): merge everything
+   GroupByC(<<Root>>, "omit", <<PA>>, "str", ""),             \* GroupBy(merge="a"): the context but a
+   GroupByC(<<Root>>, "str", <<PA, PC>>, "tuple", ""),        \* GroupBy("", ("a", "count"))
+   GroupByC(<<PA>>, "tuple", <<Root>>, "str", ""),            \* GroupBy(("a",), "")
+   GroupByC(<<Root>>, "omit", <<PNB>>, "str", ""),            \* GroupBy(merge="n.b"): a nested key ignored
+   GroupByC(<<PNB>>, "str", <<Root>>, "omit", ""),            \* GroupBy("n.b"): by a nested key
+   GroupByC(<<Root, PNB>>, "tuple", <<PN>>, "tuple", "")}     \* GroupBy(("", "n.b"), ("n",)): n ignored but for n.b
+GroupByCfgsMore ==
+  {GroupByC(<<Root>>, "tuple", <<>>, "tuple", ""),            \* GroupBy(("",), ())
+   GroupByC(<<Root>>, "tuple", <<>>, "tuple", "dep"),
+   GroupByC(<<Root>>, "str", <<>>, "tuple", "odd"),
+   GroupByC(<<Root>>, "omit", <<Root>>, "str", ""),           \* GroupBy(merge="")
+   GroupByC(<<>>, "tuple", <<Root>>, "omit", ""),             \* GroupBy(())
+   GroupByC(<<Root>>, "tuple", <<PA>>, "tuple", "dep"),       \* GroupBy(("",), ("a",))
+   GroupByC(<<Root>>, "omit", <<PC, PA>>, "tuple", ""),       \* GroupBy(merge=("count", "a"))
+   GroupByC(<<PC, PA>>, "tuple", <<Root>>, "tuple", ""),      \* GroupBy(("count", "a"), ("",))
+   GroupByC(<<Root>>, "str", <<PN>>, "str", ""),              \* GroupBy("", "n"): a sub-dictionary ignored
+   GroupByC(<<PN>>, "str", <<Root>>, "str", ""),              \* GroupBy("n", ""): by a sub-dictionary
+   GroupByC(<<PA, PNB>>, "tuple", <<Root>>, "omit", ""),      \* GroupBy(("a", "n.b"))
+   GroupByC(<<Root>>, "str", <<PNB, PA>>, "tuple", ""),       \* GroupBy("", ("n.b", "a"))
+   GroupByC(<<PN>>, "tuple", <<Root, PNB>>, "tuple", ""),     \* GroupBy(("n",), ("", "n.b")): n but for n.b
+   GroupByC(<<PNB, Root>>, "tuple", <<PN, PA>>, "tuple", "odd")}
 Hist(var) == [t |-> "Hist", var |-> var, edges |-> <<0, 1, 2, 3>>,
               init |-> CASE var = "plain" -> <<0, 0, 0>> [] var = "bins" -> <<1, 0, 2>>
                          [] var = "make" -> <<5, 5, 5>> [] var = "iv" -> <<7, 7, 7>>]
@@ -223,7 +344,7 @@ AllKinds == {Count0, Count2, Sum0, Sum5, DSumK,
              GroupByO("a", "dep"), StoreO(FALSE, "odd"), CountO("count", 0, "odd"),
              Store(TRUE), Store(FALSE), GroupByK("all"), GroupByK("a"), GroupByK("ac"), CountDot, CountDot2,
              Hist("plain"), Hist("bins"), Hist("make"), Hist("iv"), Hist2("plain"), Hist2("bins"), Hist2("make"),
-             GraphK(None, TRUE), GraphK(None, FALSE), GraphK(2, TRUE)}
+             GraphK(None, TRUE), GraphK(None, FALSE), GraphK(2, TRUE)} \cup GroupByCfgs
 
 \* thorough tier only
 MoreKinds == {VecOf(<<Sum0, Store(FALSE)>>, "list", "tuple", "num2"),
@@ -236,7 +357,14 @@ MoreKinds == {VecOf(<<Sum0, Store(FALSE)>>, "list", "tuple", "num2"),
               GroupByO("a", "odd"), GroupByO("all", "dep"), StoreO(TRUE, "odd"), CountA, GroupByO("ac", "dep"),
               VecW(<<MeanK("py", TRUE), Store(FALSE)>>, "list", "tuple", "num2", "wrap"),
               VecOf(<<Sum0, Sum0>>, "dim", "add", "num2"),
-              GraphI(2, FALSE, <<<<1, 7>>, <<0, 3>>>>, CS)}
+              GraphI(2, FALSE, <<<<1, 7>>, <<0, 3>>>>, CS),
+              VecOf(<<GroupByC(<<Root>>, "str", <<>>, "tuple", ""), GroupByC(<<Root>>, "omit", <<PA>>, "tuple", "")>>,
+                    "list", "tuple", "pair2")} \cup GroupByCfgsMore
+\* every GroupBy of the model is a configuration that the element accepts
+RECURSIVE GroupBysOf(_)
+GroupBysOf(k) == IF k.t = "GroupBy" THEN {k}
+                 ELSE IF k.t = "Vec" THEN UNION {GroupBysOf(k.inners[i]) : i \in 1..Len(k.inners)} ELSE {}
+ASSUME \A k \in AllKinds \cup MoreKinds : \A g \in GroupBysOf(k) : ValidCfg(g)
 ThoroughKinds == AllKinds \cup MoreKinds
 RECURSIVE FreshKind(_)
 FreshKind(k) == CASE k.t = "Count" -> [k EXCEPT !.start = 0]
@@ -276,7 +404,7 @@ FillState(k, s, v) ==
     [] k.t = "Vec" -> [els |-> [i \in 1..Len(k.inners) |-> FillState(k.inners[i], s.els[i], v.d[i])], ctx |-> v.c]
     [] k.t = "Store" -> [group |-> Append(s.group, v)]
     [] k.t = "GroupBy" ->
-         LET key == GKey(k, v) IN
+         LET key == OKey(k, v) IN
          IF \E j \in 1..Len(s.groups) : s.groups[j].key = key
          THEN [groups |-> [j \in 1..Len(s.groups) |->
                   IF s.groups[j].key = key THEN [key |-> key, vals |-> Append(s.groups[j].vals, v)]
@@ -392,8 +520,8 @@ Expected(k, fs) ==
                     Out(Construct(k, [i \in 1..m |-> IF j <= Len(rs[i].out) THEN rs[i].out[j] ELSE Pad]), c)])
     [] k.t = "Store" -> IF k.grp THEN Ok(<<P(fs)>>) ELSE Ok(fs)
     [] k.t = "GroupBy" ->
-         LET keys == Firsts([j \in 1..n |-> GKey(k, fs[j])], {}) IN
-         Ok([g \in 1..Len(keys) |-> P(SelectSeq(fs, LAMBDA v : GKey(k, v) = keys[g]))])
+         LET keys == Firsts([j \in 1..n |-> DKey(k, fs[j])], {}) IN
+         Ok([g \in 1..Len(keys) |-> P(SelectSeq(fs, LAMBDA v : DKey(k, v) = keys[g]))])
     [] k.t = "Hist2" ->
            LET In(j, cx, cy) == CellIn(k.edges, ds[j][1]) = cx /\ CellIn(k.edges2, ds[j][2]) = cy IN
            Ok(<<V([bins |-> [cx \in 1..(Len(k.edges) - 1) |-> [cy \in 1..(Len(k.edges2) - 1) |->
